@@ -101,6 +101,13 @@ ZonedCells ==
      \* a provider reporting an impossible offset (+-10^10 s, +-9 223 372 037 s - the first whose nanoseconds leave 64 bits -, 10^12 s): still no panic, assertion or hang
      \cup {[op |-> "ZonedX.absurd", args |-> [off |-> o, recv |-> r]] : o \in {Bg(1, <<0, 0, 100>>), Bg(-1, <<0, 0, 100>>), Bg(1, <<2037, 3372, 92>>), Bg(-1, <<2037, 3372, 92>>), Bg(1, <<0, 0, 0, 1>>)}, r \in XRecv}
      \cup {[op |-> "ZonedX.fromLocal", args |-> [zone |-> z, dt |-> x, dis |-> ds]] : z \in XZones, x \in DTs, ds \in {"compatible", "earlier", "later", "reject"}}
+     \* a time zone identifier of n components ("a/a/.../a"): however long, an answer and no exhausted stack
+     \cup {[op |-> "MiscX.deepZoneId", args |-> [n |-> n]] : n \in {1, 1000, 300000}}
+     \* a property bag with an extreme year in the calendars whose arithmetic is this crate's or plain ICU arithmetic (the astronomical
+     \* and lunisolar ones assert inside icu_calendar far from the present: C16's recorded finding)
+     \cup {[op |-> "MiscX.partialYear", args |-> [cal |-> c, year |-> y, era |-> e]] :
+             c \in {"iso8601", "gregory", "japanese", "roc", "buddhist", "coptic", "ethiopic", "indian", "persian", "islamic-civil", "islamic-tbla"},
+             y \in {-2147483647 - 1, 2147483647, -271821, 275760, 0, -1, 1}, e \in BOOLEAN}
   ELSE {}
 
 Init == cell \in Cells \cup ZonedCells /\ last = None
